@@ -25,10 +25,11 @@ import (
 type c32Case struct {
 	Cfg     simx.ChainCfg `json:"cfg"`
 	Ops     []simx.MemOp  `json:"ops"`
-	History string        `json:"history"`       // "" = no control traffic
-	Prefix  int           `json:"prefix"`        // the history addresses the top Prefix control ports of the chain
-	Cut     int           `json:"cut"`           // index into the cut times; -1 = every cut in turn
-	TLB     *c32TLBCase   `json:"tlb,omitempty"` // instead of all the above: the translation scenario
+	History string        `json:"history"`        // "" = no control traffic
+	Prefix  int           `json:"prefix"`         // the history addresses the top Prefix control ports of the chain
+	Cut     int           `json:"cut"`            // index into the cut times; -1 = every cut in turn
+	TLB     *c32TLBCase   `json:"tlb,omitempty"`  // instead of all the above: the translation scenario
+	Slow    string        `json:"slow,omitempty"` // the requester retrieves its responses slowly: every4 | hold12
 }
 
 var c32Histories = []string{"reset", "pause-reset-enable", "drain-reset-enable", "reset-twice", "pause-enable", "drain-enable"}
@@ -226,6 +227,13 @@ func judgeTrace(log []traceEvent, quiescent, resetHistory bool) (probs []tracePr
 	return probs, stats
 }
 
+func slowTag(slow string) string {
+	if slow == "" {
+		return ""
+	}
+	return " [requester retrieves " + slow + "]"
+}
+
 // ---- running one traced scenario --------------------------------------------------------------
 
 var c32Ctx *lib.Ctx
@@ -285,7 +293,7 @@ func runC32(cs c32Case) (string, []lib.Problem) {
 
 func runC32Once(cs c32Case, cutTime uint64, controlled bool) (string, []lib.Problem) {
 	env := simx.NewLight()
-	ch := buildChainIn(env, cs.Cfg, cloneOps(cs.Ops))
+	ch := buildChainSlow(env, cs.Cfg, cloneOps(cs.Ops), cs.Slow)
 	defer env.Close()
 	hist := cs.History
 	if hist == "" {
@@ -294,7 +302,7 @@ func runC32Once(cs c32Case, cutTime uint64, controlled bool) (string, []lib.Prob
 	var probs []lib.Problem
 	bad := func(clause, where, f string, a ...any) {
 		probs = append(probs, lib.Problem{Key: "trace:" + clause + ":" + where + ":" + histClass(cs.History),
-			What: fmt.Sprintf("%s script %s history %s/p%d: ", cs.Cfg.Name(), scriptString(cs.Ops), hist, cs.Prefix) + fmt.Sprintf(f, a...)})
+			What: fmt.Sprintf("%s%s script %s history %s/p%d: ", cs.Cfg.Name(), slowTag(cs.Slow), scriptString(cs.Ops), hist, cs.Prefix) + fmt.Sprintf(f, a...)})
 	}
 
 	var ctrl *simx.Controller
@@ -364,7 +372,7 @@ func runC32Once(cs c32Case, cutTime uint64, controlled bool) (string, []lib.Prob
 	if !ch.Driver.Done() {
 		done = "requests-dropped"
 	}
-	return fmt.Sprintf("%s %v+%s %s %s", hist, cs.Cfg.Stages, cs.Cfg.Memory, done, ctrlDone), probs
+	return fmt.Sprintf("%s%s %v+%s %s %s", hist, slowTag(cs.Slow), cs.Cfg.Stages, cs.Cfg.Memory, done, ctrlDone), probs
 }
 
 var c32Stats struct{ tasks, milestones, tags, danglingEnds, redundantEnds, locations, panics int64 }
@@ -385,6 +393,40 @@ func enumC32(c *lib.Ctx, yield func(c32Case) bool) {
 		if hasCache(cfg) && cfg.Memory == "ideal" && cfg.NumMem == 1 && cfg.Lat == 1 && cfg.Eager && (c.Thorough() || len(cfg.Stages) <= 1 || cfg.Stages[0] == "wt-through") {
 			if !enumScripts(alpha2, 3, func(ops []simx.MemOp) bool { return yield(c32Case{Cfg: cfg, Ops: ops, Cut: -1}) }) {
 				return
+			}
+		}
+	}
+	// (1b) back-pressure: every kind of agent once directly under a requester that
+	// is slow to retrieve its responses, with port buffers of 1 (and 4), so that the
+	// agent finds its output port full and has to retry: k=2 over the full
+	// alphabet and write-heavy k=3 scripts
+	var wAlpha []simx.MemOp // read4, write line, write4@0, write4@8, masked write on two lines
+	for i, op := range alpha2 {
+		if k := i % 7; k == 0 || k >= 3 {
+			wAlpha = append(wAlpha, op)
+		}
+	}
+	for _, st := range [][]string{{}, {"rob"}, {"wb"}, {"wt-around"}, {"wt-evict"}, {"wt-through"}, {"wt-through", "wb"}} {
+		for _, m := range []string{"banked1", "banked2", "ideal", "dram-DDR4"} {
+			if len(st) > 0 && !c.Thorough() && (m == "banked1" || m == "dram-DDR4") && st[0] != "wb" {
+				continue // quick: every memory kind directly and under wb; the other stacks over banked2 and ideal
+			}
+			for _, nm := range []int{1, 2} {
+				if nm == 2 && (len(st) > 0 || m == "dram-DDR4") {
+					continue
+				}
+				for _, buf := range lib.Pick(c, []int{1}, []int{1, 4}) {
+					for _, slow := range slowModes {
+						cfg := simx.ChainCfg{Stages: st, Memory: m, NumMem: nm, PortBuf: buf, Lat: 1, MSHR: 2, Eager: true}
+						y := func(ops []simx.MemOp) bool { return yield(c32Case{Cfg: cfg, Ops: ops, Cut: -1, Slow: slow}) }
+						if !enumScripts(alpha2, 2, y) {
+							return
+						}
+						if (len(st) == 0 || c.Thorough()) && !enumScripts(wAlpha, 3, y) {
+							return
+						}
+					}
+				}
 			}
 		}
 	}
@@ -453,6 +495,7 @@ func init() {
 		ID:    "C32",
 		Level: "exploration",
 		Rule: "small-scope simulation on the real components with a recording tracer on every component and incoming+outgoing buffer tracing on every port. (1) Every assembly of the C33 catalogue x every k=2 script over {read4@0, read4@8, read line, write line, write4@0, write4@8, masked write} x 2 [thorough 3] same-set lines, plus k=3 on cache-bearing eager assemblies over ideal memory. " +
+			"(1b) Back-pressure: stacks {none, rob, wb, wt-around, wt-evict, wt-through, wt-through>wb} over {banked 1/2 banks, ideal, DDR4} (quick: every memory kind directly and under wb, the other stacks over banked2 and ideal; two interleaved controllers for the stage-less banked/ideal ones) with port buffers of 1 [thorough: and 4], eager issue and a requester that retrieves its responses only every 4th tick / not before tick 12, so that the agent below finds its output port full and retries: every k=2 script over the 7 operations x 2 lines, and write-heavy k=3 scripts (5 operations x 2 lines) on the stage-less assemblies [thorough: everywhere]. " +
 			"(2) Control histories {reset, pause-reset-enable, drain-reset-enable, pause-enable [thorough + reset-twice, drain-enable]} addressed to every top-down prefix of the chain's control ports (caches/ROB first, memory last; pauses and drains top-down, resets and enables bottom-up) on stacks {none, wb, wt-through, rob, wt-evict>wb, wb>wb} over ideal memory and {none, wb} over {banked2, DDR4} [thorough: 11 stacks x 5 memories], x every k=2 script over 4 [5] operations x 2 lines issued eagerly, with the history started at EVERY distinct event time of the uncontrolled run (traffic in flight). " +
 			"(3) A translation scenario: scripted requester -> real TLB (1 set x 2 ways, MSHR 2, latency {2,4}) -> stub provider (latency {1,6}), every k=2 [thorough 3] sequence over 4 virtual addresses on 3 pages, without control traffic and with each of the six histories on the TLB's control port started at every cut. " +
 			"Oracle, once the engine has no event left: no task ID is started twice; every started task is ended exactly once with end >= start; every milestone and tag names a task that was started and carries a time inside that task's [start, end]; every location hosts tasks of one kind only. Ends of never-started tasks, and in histories containing a Reset second ends of already ended tasks (both documented as harmless products of the blanket end-on-reset helpers), are counted, not judged; a task's lifetime is [start, first end]. Runs that panic or do not settle are counted, not judged. A case = (assembly, script, history, prefix); cut_points_explored counts the controlled runs.",
